@@ -118,5 +118,42 @@ CHECKS = {
         note="Trusted: Python round() is half-even; C01 for the solve and C14 for bounds. Exactness on constant/linear input is declined.",
         technique="static analysis: store/def descriptors with guards from the structured walk, alias analysis for views/copies",
     ),
+    "C03": dict(
+        category=OTHER,
+        text="Composition, not numbers: whits computes lambda = 10**sg else s and selects the kernel on p; ws2dgu performs exactly one solve with the validity mask as "
+             "weight under `lambda != 0 and >= 2 valid cells`, rounds half-even into the output and otherwise passes the input through; ws2dpgu's reweighting block "
+             "descriptor equals the statement (<= 10 passes from the zero curve, strict y > z -> p else 1-p, weight = mask x asymmetric weight, stop at L1 change == 0 "
+             "evaluated after the solve, carry after the test, final solve with the last weights, rounding); argument binding of both sites.",
+        note="Trusted: np.round half-even; C01 for the solve. Numerical equality with the PLS/expectile curve and convergence within 10 passes are declined.",
+        technique="static analysis: block descriptors (E8) located by content from a structured def/guard walk, compared with the reference descriptor of the statement",
+    ),
+    "C04": dict(
+        category=OTHER,
+        text="For each of the four V-curve copies: normal-form equality of the fit / roughness / v / midpoint expressions with the statement, coverage of the accumulation "
+             "loops, arg-min structure (value and index updated together over every candidate), reported lambda = 10**midpoint, and self-consistency of the band "
+             "(final solve resp. final reweighting block from the zero curve at exactly the reported lambda, same mask, rounded) as a sibling of the fixed-lambda smoothers; "
+             "the lc grid choice evaluated over the abstract cases {lc > 0.5, lc <= 0.5, NaN} in both siblings; accessor binding, sgrid dtype/expression, naming. "
+             "Known finding D3: the gufunc's third grid for NaN lc.",
+        note="Trusted: np.arange grids as written; C03 reference descriptor. Numerical optimality of the winner and the warm start across grid values are declined.",
+        technique="static analysis: rational normal-form equality, arg-min and IRLS descriptors, three-valued abstract evaluation of the lc branch structure",
+    ),
+    "C05": dict(
+        category=OTHER,
+        text="For each of the three GCV copies: candidate provenance (10**srange or the previously selected grid value), score formula as a normal form "
+             "(wsse / (sum w (1 - trH/sum w)^2), gamma, eigenvalues), arg-min with score/lambda/curve updated together, reported-lambda table, band = final solve / "
+             "reweighting block at the reported lambda with mask x robust weights, R-DIVGUARD of the scale flavour (the MAD must be tested positive before it divides), "
+             "residual selection containing the validity mask, bisquare formulas; accessor defaults and binding.",
+        note="Trusted: np.median/np.sum semantics. Numerical optimality and finiteness beyond the MAD guard (tiny non-zero MAD) are declined.",
+        technique="static analysis: rational normal-form equality, CFG dominance of the scale guard, mask-factor resolution of solver weights",
+    ),
+    "C06": dict(
+        category=OTHER,
+        text="Three necessary structural clauses: (1) on the band coefficients extracted from ws2d's code every penalty row sums to zero and has zero first moment and "
+             "the band is persymmetric (assembled for several n); (2) use-shape rule: in all nine smoother kernels every use of the input series is a mask test, the "
+             "solver's first argument, a difference with or an order comparison against a solver output; (3) the V-curve criteria sum sign-even summands over the whole extent.",
+        note="These are necessary conditions of the relational property, not the property: equality of two runs incl. rounding ties, and convergence of the reweighting "
+             "from the zero curve (not offset-equivariant in its first pass) are declined.",
+        technique="static analysis: invariants of extracted coefficients, syntactic use-shape rule over the syntax tree",
+    ),
 }
 NOT_APPLICABLE = {}
